@@ -1,11 +1,17 @@
 #!/usr/bin/env python3
 """Independent parser of the raw Unicode Character Database files and of the IANA PRECIS registry
-CSV in /repo  ->  *specification* step functions in lean/Precis/Gen/Ucd63.lean, Ucd16.lean.
+CSV  ->  *specification* step functions in lean/Precis/Gen/Ucd63.lean, Ucd16.lean.
+
+The files are read from /verif/reference (gzip copies of the Unicode 6.3.0 / 16.0.0 and IANA files as
+pinned): the properties name these Unicode versions, so the specification side must not move when a
+resource file inside /repo is edited — such an edit then shows up as a difference between the tables the
+build generates and this specification (with the code point as the failing input).
 
 Shares no code with precis-tools, ucd-parse or the repo's CSV parser: it reads the text files with
 plain string splitting, expands First/Last ranges itself, builds one value per code point and
 run-length encodes that.  A step function is a list of (start, value) breakpoints; the value before
 the first breakpoint is the type's default (see Precis/Spec/UcdTypes.lean)."""
+import gzip
 import os
 import sys
 
@@ -25,8 +31,15 @@ def write_if_changed(path, text):
     return False
 
 
+def ropen(path):
+    """open a reference file (gzip) or a plain file"""
+    if os.path.exists(path + '.gz'):
+        return gzip.open(path + '.gz', 'rt', encoding='utf-8')
+    return open(path, encoding='utf-8')
+
+
 def data_lines(path):
-    with open(path, encoding='utf-8') as f:
+    with ropen(path) as f:
         for raw in f:
             line = raw.split('#', 1)[0].strip()
             if line:
@@ -36,7 +49,7 @@ def data_lines(path):
 def parse_unicode_data(path):
     """yields (lo, hi, fields) with First/Last pairs folded"""
     first = None
-    with open(path, encoding='utf-8') as f:
+    with ropen(path) as f:
         for raw in f:
             raw = raw.rstrip('\n')
             if not raw:
@@ -95,7 +108,7 @@ BIDI = ['AL', 'AN', 'B', 'BN', 'CS', 'EN', 'ES', 'ET', 'FSI', 'L', 'LRE', 'LRI',
 
 
 def gen63(repo, gen_dir):
-    ucd = os.path.join(repo, 'precis-core', 'resources', 'ucd')
+    ucd = os.path.join(repo, 'core-6.3.0')
     n = MAXCP + 1
     gc = ['Cn'] * n
     vir = [False] * n
@@ -139,8 +152,8 @@ def gen63(repo, gen_dir):
     names = {'PVALID': 'pvalid', 'FREE_PVAL': 'freePval', 'CONTEXTJ': 'contextJ', 'CONTEXTO': 'contextO',
              'DISALLOWED': 'disallowed', 'ID_DIS': 'idDis', 'UNASSIGNED': 'unassigned',
              'ID_DIS or FREE_PVAL': 'idDisOrFreePval'}
-    csvp = os.path.join(repo, 'precis-core', 'resources', 'csv', 'precis-tables-6.3.0.csv')
-    with open(csvp, encoding='utf-8') as f:
+    csvp = os.path.join(repo, 'core-6.3.0', 'precis-tables-6.3.0.csv')
+    with ropen(csvp) as f:
         for i, raw in enumerate(f):
             if i == 0:
                 continue
@@ -157,7 +170,7 @@ def gen63(repo, gen_dir):
         arr[MAXCP] = dflt
     b = lambda v: 'true' if v else 'false'
     dot = lambda v: '.' + v
-    out = '-- GENERATED by tools/ucd_spec.py from /repo/precis-core/resources/{ucd,csv} (independent parser); do not edit.\n'
+    out = '-- GENERATED by tools/ucd_spec.py from /verif/reference/core-6.3.0 (pinned Unicode 6.3.0 + IANA registry; independent parser); do not edit.\n'
     out += 'import Precis.Spec.UcdTypes\nset_option maxRecDepth 100000\nnamespace Precis.Gen.Ucd63\nopen Precis.Spec\n\n'
     out += '/-- General_Category, Unicode 6.3.0 (default Cn) -/\n' + emit_step('gcStep', 'Gc', rle(gc), dot)
     out += '/-- Canonical_Combining_Class = 9 (Virama) -/\n' + emit_step('viramaStep', 'Bool', rle(vir), b, 8)
@@ -173,7 +186,7 @@ def gen63(repo, gen_dir):
 
 
 def gen16(repo, gen_dir):
-    ucd = os.path.join(repo, 'precis-profiles', 'resources', 'ucd')
+    ucd = os.path.join(repo, 'profiles-16.0.0')
     n = MAXCP + 1
     zs = [False] * n
     bidi = [None] * n
@@ -191,7 +204,7 @@ def gen16(repo, gen_dir):
     b = lambda v: 'true' if v else 'false'
     ob = lambda v: 'none' if v is None else f'some .{v}'
     on = lambda v: 'none' if v is None else f'some {v}'
-    out = '-- GENERATED by tools/ucd_spec.py from /repo/precis-profiles/resources/ucd/UnicodeData.txt (independent parser); do not edit.\n'
+    out = '-- GENERATED by tools/ucd_spec.py from /verif/reference/profiles-16.0.0/UnicodeData.txt (pinned Unicode 16.0.0; independent parser); do not edit.\n'
     out += 'import Precis.Spec.UcdTypes\nset_option maxRecDepth 100000\nnamespace Precis.Gen.Ucd16\nopen Precis Precis.Spec\n\n'
     out += '/-- General_Category = Zs, Unicode 16.0.0 -/\n' + emit_step('zsStep', 'Bool', rle(zs), b, 8)
     out += '/-- Bidi_Class of the code points listed in UnicodeData.txt (none = not listed) -/\n' + emit_step('bidiStep', 'Option BidiClass', rle(bidi), ob, 5)
